@@ -1,6 +1,17 @@
 //! Scenario 6: `#[interthread::family]` with two members R and W over one
 //! shared actor, stamped for lib in {std, tokio, async_std} x {Mutex, RwLock}.
 
+/// a call whose future is dropped after `ms` milliseconds (the caller gives up); not available on std
+macro_rules! abandon_after {
+    (std, $slot:expr, $h:ident, $call:expr, $ms:expr) => { let _ = (&$h, $ms); $slot.call_done(); };
+    (tokio, $slot:expr, $h:ident, $call:expr, $ms:expr) => {
+        spawn_client!(tokio, $slot.clone(), { let mut $h = $h; let _ = tokio::time::timeout(std::time::Duration::from_millis($ms), $call).await; });
+    };
+    (async_std, $slot:expr, $h:ident, $call:expr, $ms:expr) => {
+        spawn_client!(async_std, $slot.clone(), { let mut $h = $h; let _ = async_std::future::timeout(std::time::Duration::from_millis($ms), $call).await; });
+    };
+}
+
 macro_rules! stamp_family {
     (mod $m:ident; lib $lib:ident $libs:tt; lock $lock:ident; aw [$($aw:tt)*]) => {
         #[allow(dead_code, unused_variables, unused_mut, unused_imports)]
@@ -23,8 +34,8 @@ macro_rules! stamp_family {
             }
 
             #[interthread::family(lib = $libs, $lock,
-                actor(first_name = "R", include(peek, slow_read, note, mark)),
-                actor(first_name = "W", include(bump, slow_read)),
+                actor(first_name = "R", include(peek, slow_read, note, mark, add)),
+                actor(first_name = "W", include(bump, slow_read, slow_bump, total)),
             )]
             impl Cell {
                 pub fn new(rec: Arc<Rec>) -> Self {
@@ -52,6 +63,28 @@ macro_rules! stamp_family {
                 pub fn mark(&self, who: u32) -> i64 {
                     let _g = self.rec.enter_reader();
                     self.rec.push(format!("mark:{who}"));
+                    self.n
+                }
+
+                // holds the write lock for `ms` milliseconds
+                pub fn slow_bump(&mut self, ms: u64) {
+                    let _g = self.rec.enter_writer();
+                    self.rec.push("slow_bump:start".to_string());
+                    std::thread::sleep(Duration::from_millis(ms));
+                    self.n += 1000;
+                    self.rec.push("slow_bump:end".to_string());
+                }
+
+                // a mutating value-returning call
+                pub fn add(&mut self, x: i64) -> i64 {
+                    let _g = self.rec.enter_writer();
+                    self.n += x;
+                    self.rec.push(format!("add:{x}"));
+                    self.n
+                }
+
+                pub fn total(&self) -> i64 {
+                    let _g = self.rec.enter_reader();
                     self.n
                 }
 
@@ -152,6 +185,30 @@ macro_rules! stamp_family {
                 phase("family: final peek");
                 let fin = timed_call!($lib, [$($aw)*], r, r.peek(), Duration::from_secs(3));
 
+                // last phase (it may end member R's loop): member W holds the lock, a value-returning mutating call through member R
+                // waits for it and its caller gives up meanwhile; the accepted call must still be applied
+                phase("family: abandoned call under contention");
+                let ab_lib_async = stringify!($lib) != "std";
+                let mut abandoned_applied = true;
+                let mut total_after: Option<i64> = None;
+                if ab_lib_async {
+                    let sb = Slot::new();
+                    {
+                        let wc = w.clone();
+                        spawn_client!($lib, sb.clone(), { let mut wc = wc; wc.slow_bump(400) $($aw)*; });
+                    }
+                    wait_until(|| rec.log_contains("slow_bump:start"), Duration::from_secs(2));
+                    let ab = Slot::new();
+                    {
+                        let rc = r.clone();
+                        abandon_after!($lib, ab, rc, rc.add(5), 80);
+                    }
+                    settle(&|| ab.finished(), Duration::from_secs(2));
+                    wait_until(|| rec.log_contains("slow_bump:end"), Duration::from_secs(3));
+                    abandoned_applied = wait_until(|| rec.log_contains("add:5"), Duration::from_millis(1500));
+                    if let Timed::Ok(v) = timed_call!($lib, [$($aw)*], w, w.total(), Duration::from_secs(3)) { total_after = Some(v); }
+                }
+
                 let log = rec.snapshot();
                 let rdv: Vec<&String> = log.iter().filter(|e| e.starts_with("rendezvous:")).collect();
                 let rendezvous = if rdv.len() < 2 {
@@ -180,6 +237,9 @@ macro_rules! stamp_family {
                     .b("per_member_order_ok", order_ok)
                     .b("all_bumps_applied", all_applied)
                     .b("peeks_monotonic", monotonic.load(SeqCst))
+                    .b("abandon_tested", ab_lib_async)
+                    .b("abandoned_applied", abandoned_applied)
+                    .raw("total_after_abandon", match total_after { Some(v) => v.to_string(), None => "null".to_string() })
                     .b("note_order_ok", note_order_ok)
                     .strs("note_log", &note_log)
                     .s("rendezvous", rendezvous);
